@@ -264,6 +264,10 @@ LINKS = [
     ('mapped-slice-item', 'm[1:6][2]'), ('mapped-in-list', '[m[::-1], 0]'), ('map1-item', 'm1[1]'), ('map1-whole', 'm1'),
     ('currymap-item', 'cm[1]'), ('mapreduce', 'mr'), ('reduce', 'rd'), ('identity', 'identity(a)'), ('identity-list', 'identity([a, 2])'),
     ('iteratetask', 'it0'), ('return-tuple', 'rt1'), ('customhash-plain', None), ('numpy', 'ar'), ('none', 'nl'),
+    ('customhash-of-list', 'CustomHash([a, 1], hash_one)'), ('customhash-of-mapped-slice', 'CustomHash(m[1:5], hash_one)'), ('customhash-of-view', 'CustomHash(a[1], hash_one)'),
+    ('identity-of-mapped', 'identity(m)'), ('identity-of-slice', 'identity(m[::2])'),
+    ('fview-of-task', 'Tasklet(a, nsum)'), ('fview-of-mapped', 'Tasklet(m, nsum)'), ('fview-of-mapped-slice', 'Tasklet(m[1:6], nsum)'), ('fview-of-list', 'Tasklet([a[1], i], nsum)'),
+    ('fview-of-dict', 'Tasklet({"k": a[2], "m": m[0]}, nsum)'), ('fview-of-fview', 'Tasklet(Tasklet([a, i], nsum), nsum)'),
     ('duplicate-producer', None), ('duplicate-consumer', None), ('sibling-consumers', None), ('typed-siblings', None),
 ]
 
